@@ -129,7 +129,15 @@ def run_case(rng, tier, case):
             for _ in range(3):
                 ws, we, kind = gen.gen_window(rng, g) if mode == 'plain' else (None, None, 'none')
                 desc['windows'].append([ws, we])
-                tg.set_restricted_grid(None if ws is None else pd.Timestamp(ws), None if we is None else pd.Timestamp(we))
+                ws_in = None if ws is None else pd.Timestamp(ws); we_in = None if we is None else pd.Timestamp(we)
+                if g['tz'] is not None and rng.random() < 0.5:
+                    # the same instants given zone-aware: in the grid's zone or quoted in another zone
+                    oz = gen.pick(rng, [g['tz'], 'UTC', 'Asia/Kolkata', 'America/New_York'])
+                    ws_in = None if ws_in is None else ws_in.tz_localize(g['tz']).tz_convert(oz)
+                    we_in = None if we_in is None else we_in.tz_localize(g['tz']).tz_convert(oz)
+                    desc['windows'][-1] += ['aware:' + oz]
+                    case.feature('window_zone_aware' + ('' if oz == g['tz'] else '_other_zone'))
+                tg.set_restricted_grid(ws_in, we_in)
             # coarse restricted grid (aligned and unaligned windows)
             if mode == 'plain' and g['freq'] in COARSER and tg.T >= 2:
                 cf = gen.pick(rng, COARSER[g['freq']])
